@@ -100,15 +100,25 @@ def arms_mapping(run, model, fn, lhs_re, rhs_re, rel=None):
     """generic: for every match arm in fn, pairs (lhs name from pattern, rhs name from body)"""
     out = []
     rel = rel or fn.file
-    for m in S.find(fn.body, "Match"):
-        for arm in m["arms"]:
-            pt = S.norm_ws(run.facts.text(rel, arm["pat"]["sp"]))
-            bt = S.norm_ws(run.facts.text(rel, arm["body"]["sp"]))
-            ls = re.findall(lhs_re, pt)
-            rs = re.findall(rhs_re, bt)
-            if ls and rs:
-                for l in ls:
-                    out.append((l, rs[0], arm))
+
+    def loose(rx):
+        # `common_defs::BinaryOp::X` may be written `BinaryOp::X` under a `use`: the crate / module qualifier is optional, the type name is not
+        m_ = re.match(r"^([a-z_][a-z0-9_]*)::(?=[A-Z])", rx)
+        return (r"(?<![A-Za-z0-9_])(?:" + m_.group(1) + "::)?" + rx[m_.end():]) if m_ else rx
+    lhs_re, rhs_re = loose(lhs_re), loose(rhs_re)
+    # the table may live in a helper of the same file that the function calls (kind -> operator extracted into its own function)
+    for g in model.scope_fns(fn):
+        if g.body is None:
+            continue
+        for m in S.find(g.body, "Match"):
+            for arm in m["arms"]:
+                pt = S.norm_ws(run.facts.text(g.file, arm["pat"]["sp"]))
+                bt = S.norm_ws(run.facts.text(g.file, arm["body"]["sp"]))
+                ls = re.findall(lhs_re, pt)
+                rs = re.findall(rhs_re, bt)
+                if ls and rs:
+                    for l in ls:
+                        out.append((l, rs[0], arm))
     return out
 
 
